@@ -144,7 +144,7 @@ func TestC05OrderDup(t *testing.T) {
 		if rapid.IntRange(0, 3).Draw(rt, "startAtWrap") == 0 && cfg.AtLeastOnceMax > 1 && cfg.ExactlyOnceMax > 1 {
 			h = newWrapH(rt, "C05", cfg, []byte{1, 2})
 		} else {
-			h = newH(rt, "C05", asVolatileSession(rt, sim.Options{Config: cfgNext}))
+			h = newH(rt, "C05", asVolatileSession(rt, sim.Options{Config: cfg}))
 		}
 		h.Act("config AtLeastOnceMax=%d ExactlyOnceMax=%d", cfg.AtLeastOnceMax, cfg.ExactlyOnceMax)
 		var fc faultCounters
